@@ -282,6 +282,7 @@ attribute [local simp] onG balancedArg enable disable pushCtx popCtx
 def okEv (v : Variant) : Ev → Bool
   | .arg .any => v.fixAny
   | .assign _ _ => v.regsDoc
+  | .copy _ _ => v.regsDoc
   | .docclass .article => v.classDoc
   | .newcol _ => v.colsDoc
   | _ => true
@@ -381,6 +382,11 @@ theorem clean_ok (v : Variant) (d : List Ev) (h : Clean v d = true) : ∀ e ∈ 
     · exact h
     · have := h _ he; simp at this
   | assign r x =>
+    simp [okEv]
+    rcases h3 with h | h
+    · exact h
+    · have := h _ he; simp at this
+  | copy r q =>
     simp [okEv]
     rcases h3 with h | h
     · exact h
